@@ -401,7 +401,11 @@ Section Create.
     if negb (forallb (fun r => (0 <=? r) && (r <? 2 ^ 32)) probs0) then CUnmod else
     let total0 := zsum probs0 in
     if total0 >=? 2 ^ 31 then CUnmod else
-    let fin (probs : list Z) : cres := if zsum probs mod 2 ^ 32 =? prec then COk probs else CFalse in
+    (* `uint32_t total_prob` summed over the table, then `if (total_prob != rans_precision_) return false`;
+       a sum outside uint32 (it would wrap) is reported as unmodelled *)
+    let fin (probs : list Z) : cres :=
+        let t := zsum probs in
+        if (t <? 0) || (t >=? 2 ^ 32) then CUnmod else if t =? prec then COk probs else CFalse in
     if total0 =? prec then fin probs0
     else if total0 <? prec then
       let a := arr_of_list probs0 in
